@@ -56,3 +56,57 @@ pub fn embedded(snap: &Snap, rv: &Report) -> Tri {
     }
     convex_boundary(snap)
 }
+
+/// Exact position of `q` relative to the boundary of the complex.
+#[derive(Clone, Debug, PartialEq, Eq)]
+pub struct HullPos {
+    /// boundary facets (cell key, opposite index) that see `q` strictly on their outer side
+    pub visible: Vec<(u64, usize)>,
+    /// q lies exactly on the hyperplane of some boundary facet
+    pub on_some_hyperplane: bool,
+    /// every side test was outside the tolerance band
+    pub decidable: bool,
+}
+
+impl HullPos {
+    pub fn strictly_outside(&self) -> bool {
+        self.decidable && !self.visible.is_empty()
+    }
+    pub fn strictly_inside(&self) -> bool {
+        self.decidable && self.visible.is_empty() && !self.on_some_hyperplane
+    }
+    pub fn inside_or_on(&self) -> bool {
+        self.decidable && self.visible.is_empty()
+    }
+}
+
+pub fn hull_position(snap: &Snap, q: &[f64]) -> HullPos {
+    let coords = snap.key_to_coords();
+    let cells: std::collections::BTreeMap<u64, &crate::snap::SCell> = snap.cells.iter().map(|c| (c.key, c)).collect();
+    let mut pos = HullPos { visible: Vec::new(), on_some_hyperplane: false, decidable: true };
+    for (facet, cell, opp_idx) in refval::boundary_facets(snap) {
+        let Some(c) = cells.get(&cell) else { continue };
+        let Some(opp) = c.verts.get(opp_idx).and_then(|k| coords.get(k)) else { continue };
+        let fpts: Option<Vec<&[f64]>> = facet.iter().map(|k| coords.get(k).copied()).collect();
+        let Some(fpts) = fpts else { continue };
+        let s = exact::side(&fpts, opp, q);
+        if !s.decidable {
+            pos.decidable = false;
+        }
+        if s.sign < 0 {
+            pos.visible.push((cell, opp_idx));
+        } else if s.sign == 0 {
+            pos.on_some_hyperplane = true;
+        }
+    }
+    pos.visible.sort_unstable();
+    pos
+}
+
+/// Is `q` in the closed simplex of cell `cell_key`? (inside, decidable)
+pub fn in_cell(snap: &Snap, cell_key: u64, q: &[f64]) -> Option<(bool, bool)> {
+    let coords = snap.key_to_coords();
+    let c = snap.cells.iter().find(|c| c.key == cell_key)?;
+    let pts: Option<Vec<&[f64]>> = c.verts.iter().map(|k| coords.get(k).copied()).collect();
+    Some(exact::in_closed_simplex(&pts?, q))
+}
